@@ -502,7 +502,8 @@ impl<'a> Format4SegmentComputer<'a> {
 }
 
 impl Cmap4 {
-    fn compute_length(&self) -> u16 {
+    /// The length in bytes of the compiled subtable.
+    fn byte_len(&self) -> usize {
         // https://learn.microsoft.com/en-us/typography/opentype/spec/cmap#format-4-segment-mapping-to-delta-values
         // there are always 8 u16 fields
         const FIXED_SIZE: usize = 8 * u16::RAW_BYTE_LEN;
@@ -511,9 +512,17 @@ impl Cmap4 {
         let segment_len = self.end_code.len() * PER_SEGMENT_LEN;
         let gid_len = self.glyph_id_array.len() * u16::RAW_BYTE_LEN;
 
-        (FIXED_SIZE + segment_len + gid_len)
-            .try_into()
-            .expect("cmap4 overflow")
+        FIXED_SIZE + segment_len + gid_len
+    }
+
+    fn compute_length(&self) -> u16 {
+        self.byte_len().try_into().expect("cmap4 overflow")
+    }
+
+    fn check_length(&self, ctx: &mut ValidationCtx) {
+        if self.byte_len() > u16::MAX as usize {
+            ctx.report("subtable length overflows u16");
+        }
     }
 
     fn compute_search_range(&self) -> u16 {
